@@ -1,0 +1,95 @@
+//go:build verif
+
+package codegen
+
+// Verification hook (add-only, compiled only with -tags verif): dumps the models the generator
+// front end (ProcessDecl) has parsed, including the unexported per-field parameters, so that the
+// verification translator can emit the schemas the generated code was produced from.
+
+type VerifField struct {
+	Name        string      `json:"name"`
+	TypeNum     uint64      `json:"typ"`
+	Kind        string      `json:"kind"`
+	Opt         bool        `json:"opt,omitempty"`
+	Width       uint        `json:"width,omitempty"`
+	StructType  string      `json:"struct,omitempty"`
+	InnerNoCopy bool        `json:"inner_nocopy,omitempty"`
+	NoCopy      bool        `json:"nocopy,omitempty"`
+	GoType      string      `json:"gotype,omitempty"`
+	Sub         *VerifField `json:"sub,omitempty"`
+	Key         *VerifField `json:"key,omitempty"`
+	Val         *VerifField `json:"val,omitempty"`
+	KeyGoType   string      `json:"key_gotype,omitempty"`
+	ValGoType   string      `json:"val_gotype,omitempty"`
+	StartPoint  string      `json:"start,omitempty"`
+	SigCovered  string      `json:"covered,omitempty"`
+}
+
+type VerifModel struct {
+	Name    string       `json:"name"`
+	Private bool         `json:"private"`
+	NoCopy  bool         `json:"nocopy"`
+	Dict    bool         `json:"dict"`
+	Ordered bool         `json:"ordered"`
+	Fields  []VerifField `json:"fields"`
+}
+
+func verifField(f TlvField) VerifField {
+	r := VerifField{Name: f.Name(), TypeNum: f.TypeNum()}
+	switch x := f.(type) {
+	case *NaturalField:
+		r.Kind, r.Opt = "natural", x.opt
+	case *FixedUintField:
+		r.Kind, r.Opt, r.Width = "fixedUint", x.opt, x.l
+	case *TimeField:
+		r.Kind, r.Opt = "time", x.opt
+	case *BinaryField:
+		r.Kind = "binary"
+	case *StringField:
+		r.Kind, r.Opt = "string", x.opt
+	case *WireField:
+		r.Kind, r.NoCopy = "wire", x.noCopy
+	case *NameField:
+		r.Kind = "name"
+	case *BoolField:
+		r.Kind = "bool"
+	case *ProcedureArgument:
+		r.Kind, r.GoType = "procedureArgument", x.argType
+	case *OffsetMarker:
+		r.Kind, r.NoCopy = "offsetMarker", x.noCopy
+	case *RangeMarker:
+		r.Kind, r.NoCopy, r.StartPoint, r.SigCovered = "rangeMarker", x.noCopy, x.startPoint, x.sigCovered
+	case *SequenceField:
+		r.Kind, r.GoType = "sequence", x.FieldType
+		s := verifField(x.SubField)
+		r.Sub = &s
+	case *StructField:
+		r.Kind, r.StructType, r.InnerNoCopy = "struct", x.StructType, x.innerNoCopy
+	case *SignatureField:
+		r.Kind, r.NoCopy, r.StartPoint, r.SigCovered = "signature", x.noCopy, x.startPoint, x.sigCovered
+	case *InterestNameField:
+		r.Kind, r.SigCovered = "interestName", x.sigCovered
+	case *MapField:
+		r.Kind, r.KeyGoType, r.ValGoType = "map", x.KeyFieldType, x.ValFieldType
+		k := verifField(x.KeyField)
+		v := verifField(x.ValField)
+		r.Key, r.Val = &k, &v
+	default:
+		r.Kind = "unknown"
+	}
+	return r
+}
+
+// VerifModels returns the models parsed so far, in generation order.
+func (g *Generator) VerifModels() []VerifModel {
+	ret := make([]VerifModel, 0, len(g.models))
+	for i := range g.models {
+		m := &g.models[i]
+		vm := VerifModel{Name: m.Name, Private: m.PrivMethods, NoCopy: m.NoCopy, Dict: m.GenDict, Ordered: m.Ordered}
+		for _, f := range m.Fields {
+			vm.Fields = append(vm.Fields, verifField(f))
+		}
+		ret = append(ret, vm)
+	}
+	return ret
+}
